@@ -931,7 +931,10 @@ class World:
         if amb.get("warnings"):
             # the host process runs with `-W error` / PYTHONWARNINGS=error / a test runner's filterwarnings=error
             old_warn = list(_warnings.filters)
-            _warnings.simplefilter(amb["warnings"])
+            # (the categories code raises deliberately about its data; deprecation notices of the interpreter
+            # or the standard library stay as they are - they are not the tool's doing)
+            _warnings.simplefilter(amb["warnings"], category=RuntimeWarning)
+            _warnings.simplefilter(amb["warnings"], category=UserWarning)
             self.fired("ambient-warnings-" + amb["warnings"])
         if cfg.get("log"):
             import logging
